@@ -65,7 +65,10 @@ def check_queries(node, inp, sub='expr', vinp=None):
     if st == 'exc' or bool(r) != astx.mentions_this(node):
         bad('contains_self_reference()', r, astx.mentions_this(node))
     check_iterate(node, vinp, sub)
-    if astx.cname(node) == 'HplPredicateExpression':
+    bare_this = any(astx.cname(k) == 'HplThisMessage' and not (astx.cname(n) == 'HplFieldAccess' and n.message is k) for n in astx.preorder(node) for k in astx.kids(n))
+    if astx.cname(node) == 'HplPredicateExpression' and not bare_this:
+        # (a predicate that uses the current message only as a bare value - possible through an own alias under roll /
+        # pitch / yaw, finding F23 - references the message but none of its fields: the own-FIELD check is not judged there)
         from hpl.errors import HplSanityError
 
         try:
@@ -125,6 +128,22 @@ def sub_expr(inp):
     if k != 'ast':
         return None
     check_queries(a, inp)
+    # history: the queries have been answered for this object; copies made from it by the library itself (a variable
+    # replaced, the current message replaced: both are built on reshape / but()) are queried next and must answer for
+    # themselves, not for their source
+    from hpl.ast import HplThisMessage, HplVarReference
+
+    names = sorted(astx.free_refs(a))[:2]
+    derived = []
+    for nm in names:
+        derived.append((f'replace_var_reference({nm!r}, @Q9)', lambda nm=nm: a.replace_var_reference(nm, HplVarReference('@Q9'))))
+        derived.append((f'replace_var_reference({nm!r}, this)', lambda nm=nm: a.replace_var_reference(nm, HplThisMessage())))
+    if astx.mentions_this(a):
+        derived.append(('replace_self_reference(@Q8)', lambda: a.replace_self_reference(HplVarReference('@Q8'))))
+    for what, fn in derived:
+        st, d = core.guarded(fn)
+        if st == 'ok' and hasattr(d, '__attrs_attrs__') and d is not a:
+            check_queries(d, dict(inp, text=f'{what} of {inp["text"]}'), vinp=inp)
     return a
 
 
